@@ -178,6 +178,48 @@ StepResult(st, o, c, sc) ==
                       IF Failed(r.S) THEN (IF r.S.err.name = "wide" THEN "" ELSE "the specification raises an error, the evaluation succeeded")
                       ELSE IF ~VEq(o.val, r.v) THEN "value differs; expected " \o ToJson(r.v) ELSE ""
             ELSE ""]
+    [] st.op = "cli" ->
+         \* C19: the bloc command. mode in file | stdin | out | expr | inter ; judged against the ideal layer when an
+         \* AST is given, else against the in-process run of the same text (same_out_as)
+         LET args == Fld(st, "args", <<>>)
+             S0 == SetVar(State0, "$ARG", VTab(TStr, [j \in DOMAIN args |-> VStr(args[j])]))
+             primary == IF st.mode = "out" THEN o.file ELSE o.out
+             crash == o.sig # 0 \/ o.san \/ o.status \notin {0, 1} IN
+         [C |-> c, why |->
+            IF crash THEN "the bloc process crashed or reported a sanitizer error (status " \o ToString(o.status) \o ", signal " \o ToString(o.sig) \o ")"
+            ELSE IF Has(st, "reject") THEN
+                 (IF o.status = 0 THEN "a text with a compile error gave exit status 0"
+                  ELSE IF o.err_empty THEN "no message on standard error for a compile error"
+                  ELSE IF st.mode # "expr" /\ ~o.err_pos THEN "the compile error message has no line:column"
+                  ELSE IF primary # "" THEN "a rejected program produced output" ELSE "")
+            ELSE IF st.mode = "expr" /\ Has(st, "ast") THEN
+                 LET r == Eval(st.ast, State0) IN
+                 IF Failed(r.S) THEN (IF r.S.err.name = "wide" THEN "" ELSE IF o.status = 0 \/ o.err_empty THEN "a failing expression gave exit status 0 or no message" ELSE "")
+                 ELSE IF o.status # 0 THEN "exit status " \o ToString(o.status) \o " for a valid expression"
+                 ELSE IF o.out # (IF IsNull(r.v) THEN "null" ELSE PrintText(r.v)) THEN "bloc -e printed " \o o.out \o ", the value is " \o PrintText(r.v) ELSE ""
+            ELSE IF st.mode = "inter" /\ Has(st, "ast") THEN
+                 LET r == RunCliInteractive(st.ast, S0) IN
+                 IF o.status # 0 THEN "interactive mode ended with status " \o ToString(o.status)
+                 ELSE IF o.out # r.S.out THEN "interactive mode printed something else; expected: " \o r.S.out
+                 ELSE IF o.nerr # r.nerr THEN "interactive mode reported " \o ToString(o.nerr) \o " errors, the program has " \o ToString(r.nerr) ELSE ""
+            ELSE IF Has(st, "ast") THEN
+                 LET S == RunProgram(st.ast, S0) IN
+                 IF Failed(S) THEN
+                      (IF S.err.name \in {"wide", "FUEL"} THEN "UNDECIDED"
+                       ELSE IF o.status = 0 THEN "a program that fails gave exit status 0"
+                       ELSE IF o.err_empty THEN "no error message on standard error"
+                       ELSE IF primary # S.out THEN "output before the error differs; expected: " \o S.out ELSE "")
+                 ELSE IF o.status # 0 THEN "exit status " \o ToString(o.status) \o " for a program that succeeds: " \o o.err
+                 ELSE IF primary # S.out \o RvText(S) THEN "the program output differs; expected: " \o S.out \o RvText(S)
+                 ELSE IF st.mode = "out" /\ o.out # "" THEN "with --out the program wrote to standard output"
+                 ELSE IF ~o.err_empty THEN "a successful run wrote to standard error" ELSE ""
+            ELSE IF Has(st, "same_out_as") THEN
+                 LET b == sc.obs[st.same_out_as] IN
+                 IF (o.status = 0) # (b.oc = "ok") THEN "exit status " \o ToString(o.status) \o " but the library run reported " \o b.oc
+                 ELSE IF b.oc = "ok" /\ SubSeq(primary, 1, Len(b.out)) # b.out THEN "the command prints something else than the library run"
+                 ELSE IF b.oc = "runtime_error" /\ primary # b.out THEN "output before the error differs from the library run"
+                 ELSE IF b.oc # "ok" /\ o.err_empty THEN "no error message on standard error" ELSE ""
+            ELSE ""]
     [] st.op = "tokens" ->
          \* C13: the token sequence is the same however the text reached the scanner
          [C |-> c, why |-> IF Has(st, "same_toks_as") /\ o.toks # sc.obs[st.same_toks_as].toks
